@@ -124,6 +124,20 @@ pub fn gen(rng: &mut Rng, _index: u64) -> String {
             }
         };
     }
+    if rng.chance(1, 10) {
+        // the same predicates on the integer coordinate types, every intermediate product within the type
+        let (ty, bound) = if rng.chance(1, 2) { ("i64", 1i64 << 30) } else { ("i32", 1i64 << 14) };
+        let (a, p, b) = near_collinear_int(rng, bound);
+        let c = Coord { x: a.x + rng.range(-7, 7) as f64, y: b.y - rng.range(-5, 5) as f64 };
+        return match rng.below(3) {
+            0 => format!("C03.seg{} {} {} {}", ty, proto::coord(a), proto::coord(b), proto::coord(p)),
+            1 => {
+                let ring = if rng.chance(1, 2) { vec![a, b, c, a] } else { vec![c, b, a, c] };
+                format!("C03.ring{} {} {}", ty, proto::coords(&ring), proto::coord(p))
+            }
+            _ => format!("C03.tri{} {} {} {} {}", ty, proto::coord(a), proto::coord(b), proto::coord(c), proto::coord(p)),
+        };
+    }
     match rng.below(10) {
         0..=2 => {
             let (p, q, r) = near_collinear(rng);
@@ -222,8 +236,74 @@ fn c32(c: Coord<f64>) -> Option<Coord<f32>> {
     if x as f64 == c.x && y as f64 == c.y && x.is_finite() && y.is_finite() { Some(Coord { x, y }) } else { None }
 }
 
+/// the coordinate as an integer coordinate of type `I`, when it is a whole number below `bound` in magnitude
+fn cint<I: GeoNum + TryFrom<i64>>(c: Coord<f64>, bound: f64) -> Option<Coord<I>> {
+    let ok = |v: f64| v.fract() == 0.0 && v.abs() < bound;
+    if !(ok(c.x) && ok(c.y)) { return None; }
+    Some(Coord { x: I::try_from(c.x as i64).ok()?, y: I::try_from(c.y as i64).ok()? })
+}
+
+/// point-on-segment, point-in-ring and point-in-triangle on an integer coordinate type (products fit: the generator
+/// keeps coordinates below 2^30 for i64 and 2^14 for i32)
+fn eval_int<I>(kind: &str, bound: f64, t: &mut Toks) -> R<String>
+where
+    I: GeoNum + TryFrom<i64>,
+{
+    match kind {
+        "seg" => {
+            let (a, b, p) = (t.coord()?, t.coord()?, t.coord()?);
+            match (cint::<I>(a, bound), cint::<I>(b, bound), cint::<I>(p, bound)) {
+                (Some(a), Some(b), Some(p)) => { let l = Line::new(a, b); Ok(format!("{} {}", l.intersects(&p), l.contains(&p))) }
+                _ => Ok("notint".into()),
+            }
+        }
+        "ring" => {
+            let ring = t.coords()?;
+            let p = t.coord()?;
+            let r: Option<Vec<Coord<I>>> = ring.iter().map(|c| cint::<I>(*c, bound)).collect();
+            match (r, cint::<I>(p, bound)) {
+                (Some(r), Some(p)) => Ok(pos_str(coord_pos_relative_to_ring(p, &LineString(r))).to_string()),
+                _ => Ok("notint".into()),
+            }
+        }
+        _ => {
+            let (a, b, c, p) = (t.coord()?, t.coord()?, t.coord()?, t.coord()?);
+            match (cint::<I>(a, bound), cint::<I>(b, bound), cint::<I>(c, bound), cint::<I>(p, bound)) {
+                (Some(a), Some(b), Some(c), Some(p)) => { let tri = Triangle(a, b, c); Ok(format!("{} {}", tri.intersects(&p), tri.contains(&p))) }
+                _ => Ok("notint".into()),
+            }
+        }
+    }
+}
+
+/// an integer segment a–b and a lattice point on its line (inside, at an end, beyond), nudged by 0 or 1
+fn near_collinear_int(rng: &mut Rng, bound: i64) -> (Coord<f64>, Coord<f64>, Coord<f64>) {
+    let small = rng.chance(1, 3);
+    let v = |rng: &mut Rng| if small { rng.range(-9, 9) } else { rng.range(-bound / 8, bound / 8) };
+    let (ax, ay) = (v(rng), v(rng));
+    // direction (dx, dy) primitive-ish, length multiplier m: b = a + m·d, p = a + j·d
+    let (dx, dy) = if small { (rng.range(-3, 3), rng.range(-3, 3)) } else { (rng.range(-bound / 64, bound / 64), rng.range(-bound / 64, bound / 64)) };
+    let m = rng.range(1, 6);
+    let j = rng.range(-2, 8);
+    let (bx, by) = (ax + m * dx, ay + m * dy);
+    let (mut px, mut py) = (ax + j * dx, ay + j * dy);
+    match rng.below(4) {
+        0 => px += *rng.pick(&[-1i64, 1]),
+        1 => py += *rng.pick(&[-1i64, 1]),
+        _ => {}
+    }
+    let c = |x: i64, y: i64| Coord { x: x as f64, y: y as f64 };
+    (c(ax, ay), c(px, py), c(bx, by))
+}
+
 pub fn eval(op: &str, t: &mut Toks) -> R<String> {
     match op {
+        "C03.segi64" => eval_int::<i64>("seg", 1073741824.0, t),
+        "C03.ringi64" => eval_int::<i64>("ring", 1073741824.0, t),
+        "C03.trii64" => eval_int::<i64>("tri", 1073741824.0, t),
+        "C03.segi32" => eval_int::<i32>("seg", 16384.0, t),
+        "C03.ringi32" => eval_int::<i32>("ring", 16384.0, t),
+        "C03.trii32" => eval_int::<i32>("tri", 16384.0, t),
         "C03.orient32" => {
             let (p, q, r) = (t.coord()?, t.coord()?, t.coord()?);
             match (c32(p), c32(q), c32(r)) {
